@@ -65,6 +65,10 @@ def _ematch(hyps, g, axioms, timeout_ms):
     return guarded_check(se, timeout_ms, "ematch") == z3.unsat
 
 
+PHASE = ["first"]      # "first": E-matching, pointwise instantiation (1 round), finite-universe refutation, full z3
+                       # "retry": E-matching, pointwise (1 and 2 rounds), cvc5 — with the doubled budget of the retry
+
+
 def solve(hyps, goal, axioms=(), timeout_ms=10000, want_model=True):
     """returns (status, backend, secs, model_text, model).  status: proved | refuted | unknown.
     The goal is skolemised and split into conjuncts; each conjunct goes through: E-matching (MBQI off),
@@ -91,7 +95,7 @@ def solve(hyps, goal, axioms=(), timeout_ms=10000, want_model=True):
                     continue
             except z3.Z3Exception:
                 pass
-            for rounds in (1, 2):
+            for rounds in ((1,) if PHASE[0] == "first" else (1, 2)):
                 try:
                     r = pointwise_check(qf, qh, g, axioms, timeout_ms, rounds=rounds)
                 except z3.Z3Exception:
@@ -103,7 +107,7 @@ def solve(hyps, goal, axioms=(), timeout_ms=10000, want_model=True):
             if done:
                 continue
             from .finite import finite_refute
-            fr = finite_refute(hyps, g, axioms, timeout_ms=timeout_ms)
+            fr = finite_refute(hyps, g, axioms, timeout_ms=timeout_ms) if PHASE[0] == "first" else None
             if fr is not None:
                 mt, m, ctx, n = fr
                 return "refuted", f"z3-{z3.get_version_string()}-finite-universe{n}", time.time() - t0, mt, m
@@ -114,17 +118,19 @@ def solve(hyps, goal, axioms=(), timeout_ms=10000, want_model=True):
             s.add(h)
         s.add(z3.Not(g))
         from .inst import cli_check
-        r, mtxt = cli_check(s, timeout_ms, want_model=True, stage="full")
-        if r == "unsat":
-            backends.add("full")
-            continue
-        if r == "sat":
-            return "refuted", "z3-" + z3.get_version_string(), time.time() - t0, mtxt[:6000], None
-        # second opinion: cvc5 on the SMT-LIB text
-        st2, secs2 = cvc5_check(s.to_smt2(), timeout_ms)
-        if st2 == "unsat":
-            backends.add("cvc5")
-            continue
+        if PHASE[0] == "first" or not quantified:
+            r, mtxt = cli_check(s, timeout_ms, want_model=True, stage="full")
+            if r == "unsat":
+                backends.add("full")
+                continue
+            if r == "sat":
+                return "refuted", "z3-" + z3.get_version_string(), time.time() - t0, mtxt[:6000], None
+        else:
+            # second opinion (retry phase only): cvc5 on the SMT-LIB text
+            st2, secs2 = cvc5_check(s.to_smt2(), timeout_ms)
+            if st2 == "unsat":
+                backends.add("cvc5")
+                continue
         from . import budget as _b
         if _b.WALL_HIT[0] > wall0:
             return "timeout", "z3+cvc5 (wall-clock safety net fired: not a verdict)", time.time() - t0, "", None
